@@ -118,7 +118,7 @@ def Step.apply (fs : FS) : Step → FS
   | .remove p => fs.erase p
 
 inductive Fn where
-  | writeBlock | touch | trash | untrash | emptyTrash
+  | writeBlock | touch | trash | untrash | emptyTrash | getFunc | stat
 deriving DecidableEq, Repr
 
 /-- The FS-call skeletons (rendered callees in source order) of the five functions, as numbered by
@@ -131,10 +131,13 @@ def skeleton : Fn → List String
   | .trash => ["v.os.OpenFile", "v.lockfile", "v.unlockfile", "v.os.Stat", "v.os.Remove", "v.os.Rename"]
   | .untrash => ["ioutil.ReadDir", "v.os.Rename"]
   | .emptyTrash => ["v.os.Remove"]
+  | .getFunc => ["v.os.Open", "ioutil.NopCloser"]
+  | .stat => ["v.os.Stat"]
 
 def Fn.goName : Fn → String
   | .writeBlock => "WriteBlock" | .touch => "Touch" | .trash => "Trash"
   | .untrash => "Untrash" | .emptyTrash => "EmptyTrash"
+  | .getFunc => "getFunc" | .stat => "stat"
 
 structure Point where
   fn : Fn
@@ -374,25 +377,41 @@ structure PutIn where
   touchFail : Option Nat      -- CompareAndTouch's Touch fails at this call
   attempts : List WBIn        -- WriteBlock attempts (reader outcomes decided by putWithPipe)
   cancelled : Bool            -- the request context ended before putWithPipe returned
+  compareCancelled : Bool     -- the request context ended while `Compare` was running
 deriving Repr
 
+/-- `UnixVolume.Compare` (through `stat` and `getFunc`): stat the block path, and if it exists open
+and read it. No effect on the volume, whatever the outcome (match, mismatch, read error, context
+cancelled). -/
+def compareEvs (fs : FS) (h : Name) : List Ev :=
+  match fs.get (blockPath h) with
+  | none => [⟨some ⟨.stat, 0⟩, .nop⟩]
+  | some _ => [⟨some ⟨.stat, 0⟩, .nop⟩, ⟨some ⟨.getFunc, 0⟩, .nop⟩, ⟨some ⟨.getFunc, 1⟩, .nop⟩]
+
+/-- `PutBlock` after `Compare` returned without the context having ended: identical copy ⇒ Touch;
+same hash, other bytes ⇒ collision; corrupt or absent ⇒ write. -/
+def putCore (hash : Bytes → Name) (fs : FS) (p : PutIn) : List Ev × Resp :=
+  let write (pre : List Ev) : List Ev × Resp :=
+    let r := attemptsEvs p.attempts
+    (pre ++ r.1, if p.cancelled then .disconnect else if r.2 then .ok200 else .fail)
+  match fs.get (blockPath p.h) with
+  | none => write []
+  | some f =>
+    if f.data = p.body then
+      let t := touchEvs fs p.h p.now p.touchFail
+      if t.2 = .ok then (t.1, .ok200) else write t.1
+    else if hash f.data = p.h then ([], .collision)
+    else write []
+
 /-- `handlePUT`: events performed on the volume and the reply, which is written only after
-`PutBlock` returned (handlers.go:262-283). -/
+`PutBlock` returned (handlers.go:262-283). When the context ends during `Compare`,
+`CompareAndTouch` returns `ctx.Err()` and `PutBlock` answers ErrClientDisconnect without touching
+or writing anything. -/
 def handlePut (hash : Bytes → Name) (fs : FS) (p : PutIn) : List Ev × Resp :=
   if !isBlockName p.h then ([], .badRequest)
   else if hash p.body ≠ p.h then ([], .hashMismatch)
-  else
-    let write (pre : List Ev) : List Ev × Resp :=
-      let r := attemptsEvs p.attempts
-      (pre ++ r.1, if p.cancelled then .disconnect else if r.2 then .ok200 else .fail)
-    match fs.get (blockPath p.h) with
-    | none => write []
-    | some f =>
-      if f.data = p.body then
-        let t := touchEvs fs p.h p.now p.touchFail
-        if t.2 = .ok then (t.1, .ok200) else write t.1
-      else if hash f.data = p.h then ([], .collision)
-      else write []
+  else if p.compareCancelled then (compareEvs fs p.h, .disconnect)
+  else ((compareEvs fs p.h) ++ (putCore hash fs p).1, (putCore hash fs p).2)
 
 /-! ### Histories with crashes -/
 
